@@ -75,7 +75,7 @@ Definition read_mac_record (e : endian) (start : Z) (rs : list Z) (ver : Z) : op
       | None => None
       | Some ints =>
           if start <? fsize then None
-          else match read_cstrings (Z.to_nat nstr) (skipn (Z.to_nat start) rs) with
+          else match read_cstrings (Z.to_nat nstr) (if zlen rs <? start then [] else skipn (Z.to_nat start) rs) with
                | Some ss => Some (Some {| cr_ints := ints; cr_strings := ss |})
                | None => None
                end
@@ -109,7 +109,7 @@ Fixpoint pairs (l : list Z) : list (Z * Z) :=
 Definition dec_maccrash (e : endian) (all bs : list Z) : option (list mcrec) :=
   match dec e L_MINIDUMP_MAC_CRASH_INFO bs with
   | Some (v, _) => match vflat v with
-                   | _ :: count :: start :: locs => mac_walk e all start (firstn (Z.to_nat count) (pairs locs)) None
+                   | _ :: count :: start :: locs => mac_walk e all start (firstn (Z.to_nat (Z.min count RD_MAC_RECORDS_MAX)) (pairs locs)) None
                    | _ => None
                    end
   | None => None
